@@ -39,6 +39,7 @@ from fractions import Fraction
 import numpy as np
 
 from . import common as C
+from . import gen_c10
 
 PID = "C10"
 EPS_PIT = 1e-10
@@ -646,12 +647,34 @@ def body(ctx):
         txt = " ".join(adsrc[max(0, line - 3):line])
         return "nan" if "isnan" in txt else "unsorted" if "prev" in txt else "range" if "<0" in txt.replace(" ", "") else "other"
 
-    # the facts about the shipped table that cvm_pvalue_range takes as hypotheses
+    # the table as the code loads it (pandas) against the table the translator gave to Lean (decimal strings of the
+    # archive): same shape, same numbers to the last bit or so; and the two facts proved about it by kernel evaluation
     tab, qq = np.asarray(metrics.CVM_TABLE, dtype=float), np.asarray(metrics.CVM_QQ, dtype=float)
+    gsizes, gqq, gcols, _ = gen_c10.regen()
+    gtab = np.array([[float(v) for v in col] for col in gcols]).T
+    same = (list(metrics.CVM_NSAMPLE) == gsizes and tab.shape == gtab.shape and len(qq) == len(gqq)
+            and np.allclose(qq, [float(v) for v in gqq], rtol=1e-12, atol=0) and np.allclose(tab, gtab, rtol=1e-12, atol=0))
+    # (1e-12: pandas' default float parser is not correctly rounded; it is off by up to 9e-14 relative on this file)
+    if not same:
+        ctx.disagree("C10/cvm_table: the table loaded by metrics.py differs from the table translated for the model",
+                     {"shape_code": list(tab.shape), "shape_generated": list(gtab.shape)})
     if not (np.all(np.diff(qq) > 0) and np.all((tab >= 0) & (tab <= 1)) and tab.shape[0] == len(qq)):
         ctx.finding("cvm/table_outside_unit_interval", "the tabulated CvM p-values are not in [0, 1] over increasing abscissae",
                     {"min": float(tab.min()), "max": float(tab.max()), "shape": list(tab.shape)})
     ctx.count(("cvmtable", tab.shape), True, "cvm/table_checked")
+    # sample sizes around every tabulated size and half-way between two of them (column choice), statistics on and
+    # between the abscissae and beyond both ends (clamping)
+    for it in range(ctx.scale(150, 1500)):
+        k = rng.randrange(len(gsizes))
+        nn = max(1, rng.choice([gsizes[k], gsizes[k] + 1, gsizes[k] - 1, (gsizes[k] + gsizes[min(k + 1, len(gsizes) - 1)]) // 2,
+                                (gsizes[k] + gsizes[min(k + 1, len(gsizes) - 1)] + 1) // 2, rng.randint(1, 1300)]))
+        r = rng.randrange(len(qq))
+        st = rng.choice([float(qq[r]), float(qq[r]) * (1 + 1e-9), 0.5 * (qq[r] + qq[min(r + 1, len(qq) - 1)]),
+                         rng.uniform(0, 1.2), 1e-7, 0.0, 1.0, 3.0, 1.0 / (12 * nn)])
+        col = int(np.argmin(np.abs(nn - metrics.CVM_NSAMPLE)))
+        pv = float(np.interp(st, metrics.CVM_QQ, metrics.CVM_TABLE[:, col]))
+        add(f"cvmpg {nn} {C.f2h(st)}", "cvmp", pv, {"nsample": nn, "stat": st, "gen": "table_lookup"})
+        ctx.count(("cvmp", nn, st), True, "cvm/pvalue_lookup")
 
     for it in range(ctx.scale(700, 7000)):
         n = rng.choice([1, 2, 3, 5, 10, 30, 100, 300]) if rng.random() < 0.7 else rng.randint(1, 300 if not ctx.thorough else 900)
@@ -709,10 +732,8 @@ def body(ctx):
         # CvM
         cv, cvp = metrics.cramer_von_mises_test(xa)
         add(f"cvm {C.flist(x)}", "cvm", float(cv), case)
-        if it % 4 == 0:
-            col = int(np.argmin(np.abs(n - metrics.CVM_NSAMPLE)))
-            add(f"cvmidx {n} {C.ilist(metrics.CVM_NSAMPLE)}", "cvmidx", f"some {col}", case)
-            add(f"cvmp {C.f2h(cv)} {C.flist(metrics.CVM_QQ)} {C.flist(metrics.CVM_TABLE[:, col])}", "cvmp", float(cvp), case)
+        # p-value: the model interpolates in the table regenerated from the archive (Generated/CvmTable.lean)
+        add(f"cvmpg {n} {C.f2h(cv)}", "cvmp", float(cvp), case)
         if n <= 12:
             add(f"cvmq [{','.join(C.rat(v) for v in x)}]", "cvmq", float(cv), case)
         q = [Fraction(v) for v in xs]
@@ -798,8 +819,6 @@ def body(ctx):
             ok = rep == impl
         elif kind == "cvm":
             ok = C.close(C.h2f(rep), impl, rel=1e-12, abs_=1e-16)
-        elif kind == "cvmidx":
-            ok = rep == impl
         elif kind == "cvmp":
             ok = rep.startswith("some ") and C.close(C.h2f(rep.split(" ")[1]), impl, rel=1e-12, abs_=1e-15)
         elif kind == "cvmq":
@@ -827,17 +846,21 @@ def body(ctx):
         "glibc qsort is a stable merge sort (2.36); the model's sort parameter is instantiated by a stable merge sort",
         "np.argsort is external and not stable: for tied observations its tie-break is an input of the model",
         "np.random.uniform draws of pit(random=True) are re-drawn from the same seed and given to the model as inputs",
-        "the KS p-value (scipy kstest) is only range-checked on the real code; the AD p-value and the CvM interpolation are modelled",
+        "the KS p-value (scipy kstest) is only range-checked on the real code; the AD p-value and the CvM p-value (generated table) are modelled",
         "floating point: ensrank is compared bit for bit; D, PIT, CvM, AD statistics within 1e-12",
     ]
 
 
 def main(tier, replay=None):
     return C.run_check(PID, tier, body, needs_native=True, replay=replay,
-                       level_partial=["pvalue_range_statement (p-values in [0, 1]): proved for Anderson-Darling (ad_pvalue_range) and for the "
-                                      "Cramer-von Mises interpolation given table entries in [0, 1] (pvalue_range_partial); the table "
-                                      "contents and scipy's kstest p-value (alpha type KS) are observed on the real code only"],
+                       level_partial=["pvalue_range_statement (p-values in [0, 1]): proved for everything hydrodiy computes itself - the "
+                                      "Anderson-Darling p-value (ad_pvalue_range) and the Cramer-von Mises p-value for the table shipped in "
+                                      "the working tree (cvm_pvalue_range, table regenerated by harness/gen_c10.py and checked by kernel "
+                                      "evaluation) = pvalue_range_partial; scipy's kstest p-value (alpha type KS) is observed on the real "
+                                      "code only"],
+                       regen=gen_c10.regen,
                        trusted=["glibc qsort stability, np.sort, np.argsort, np.corrcoef, scipy percentileofscore / rankdata / kstest (external)",
                                 "libm log (AD statistic)",
                                 "libm exp/sqrt/log (Marsaglia AD p-value); scipy kstest (alpha type KS) is not modelled",
-                                "contents of stat/data/cramer_von_mises_test_pvalues.zip (checked to lie in [0, 1] at every run)"])
+                                "translator harness/gen_c10.py (archive -> Generated/CvmTable.lean; cross-checked against the table "
+                                "metrics.py loads at every run)"])
